@@ -27,7 +27,13 @@ var small = []string{"0", "0", "1", "1", "2", "2", "3", "4", "5", "9", "10", "11
 
 // bigRuns are digit runs beyond 64 bits (and their leading-zero relatives).
 var bigRuns = []string{"18446744073709551615", "18446744073709551616", "99999999999999999999", "100000000000000000000",
-	"000000000000000000001", "0000000000000000000000", "123456789012345678901234", "099999999999999999999"}
+	"000000000000000000001", "0000000000000000000000", "123456789012345678901234", "099999999999999999999",
+	// runs around fixed-width keys (32, 64, 100 digits): the shorter one has the larger leading digits
+	strings.Repeat("9", 32), "1" + strings.Repeat("0", 32), strings.Repeat("9", 64), "1" + strings.Repeat("0", 64), strings.Repeat("9", 65), "1" + strings.Repeat("0", 99)}
+
+// wide are values around the word sizes a parser may silently narrow to (2^32, 2^48, 2^53, 2^63); they all fit in 64 bits.
+var wide = []string{"4294967295", "4294967296", "4294967297", "8589934593", "281474976710655", "281474976710656", "281474976710657", "9007199254740992", "9007199254740993",
+	"1125899906842624", "9223372036854775806", "9223372036854775807"}
 
 // NumOpts selects what Num may produce.
 type NumOpts struct {
@@ -44,8 +50,10 @@ func Num(t *rapid.T, label string, o NumOpts) string {
 		return Pick(t, label, small...)
 	case k < 75 && !o.NoBoundary:
 		return Pick(t, label, boundary...)
-	case k < 82:
+	case k < 80:
 		return strconv.Itoa(rapid.IntRange(0, 1<<31-1).Draw(t, label))
+	case k < 82 && !o.NoBoundary:
+		return Pick(t, label, wide...)
 	case k < 88 && o.LeadingZeros:
 		return Pick(t, label+"Z", "0", "00", "000") + Pick(t, label, small...)
 	case k < 90 && o.LeadingZeros:
